@@ -37,7 +37,7 @@ ASSUMPTIONS = [
 
 SUBJECTS = ["TestResult", "TextTestResult", "Multi[ext,real]", "TFR[ext]", "TFR[real]", "E2O[py26]",
             "E2O[py27]", "E2O[twisted]", "E2O[ext]", "E2O[real]", "Decorator[ext]", "Tagger[ext]", "TBT",
-            "E2O[Multi[ext]]", "Tagger[Multi[ext,real]]", "Multi[TBT,ext]", "E2S"]
+            "E2O[Multi[ext]]", "Tagger[Multi[ext,real]]", "Multi[TBT,ext]", "E2S", "Multi[Tagger[ext],ext]"]
 
 
 class Subject:
@@ -83,6 +83,11 @@ class Subject:
         elif n == "Tagger[Multi[ext,real]]":
             self.tagger = (frozenset(["tg"]), frozenset(["a"]))
             self.top = testtools.Tagger(testtools.MultiTestResult(leaf("ext"), leaf("real")), {"tg"}, {"a"})
+        elif n == "Multi[Tagger[ext],ext]":
+            # the multiplexer's own view must not be borrowed from a tag-changing constituent
+            tagged_log = recorders.Log()
+            self.top = testtools.MultiTestResult(
+                testtools.Tagger(H.make_leaf("ext", tagged_log), {"tg"}, {"a"}), leaf("ext"))
         elif n == "TBT":
             self.top = tbt()
         elif n == "Multi[TBT,ext]":
